@@ -177,7 +177,12 @@ def join(*args: str) -> str:
 
 def print_ScalarParam(p: atoms.Atom, doprint: Callable[[str], str]) -> str:
     unit_str = "" if p.unit_str is None else f'unit="{p.unit_str}"'
-    description = "" if p.description is None else f'description="{p.description}"'
+    # The description is written in double quotes on a single line
+    description = (
+        ""
+        if p.description is None
+        else 'description="{}"'.format(" ".join(p.description.replace('"', "'").splitlines()))
+    )
     if unit_str == "" and description == "":
         ret = f"{p.name}={doprint(p.value)}"  # type: ignore
     else:
